@@ -20,6 +20,10 @@ pub use crate::relayer::Relayer;
 pub use crate::status::{Status, StatusCode};
 pub use crate::synchronizer::Synchronizer;
 pub use crate::types::{ActiveChain, SyncShared};
+
+/// verification-harness hooks (feature `verif-hooks`): re-exports of items living in private modules.
+#[cfg(feature = "verif-hooks")]
+pub mod verif;
 use ckb_constant::sync::MAX_BLOCKS_IN_TRANSIT_PER_PEER;
 
 // Time recording window size, ibd period scheduler dynamically adjusts frequency
